@@ -141,6 +141,9 @@ class ReentrySub(Sub):
         # ---- pass 2
         drv = B.Partner(case, down_at=down_at)
         max2 = down_at + d["length"] + 350 + 40 * len(d["post"]) + 20 * len(case.get("noise", []))
+        sp = list(case.get("sready") or [1])
+        if 0 < sum(sp) < len(sp):             # sparse source.ready: four source words per header take longer (harness budget)
+            max2 += (6 * len(d["post"]) + 20) * -(-len(sp) // sum(sp))
         trace = self.h.run_driver(drv, max2)
         log = drv.log[:len(trace)]
         n = len(trace)
